@@ -18,6 +18,7 @@ RULE = ("random host programs over if_eq/ne/lt/ge/ez/nz (context and callback fo
         "controller -> executor and compared with direct evaluation after every flush: applied operations, arrays, "
         "registers, and every host handle created so far."
         ' A register-handle family measures again into existing RegFuture handles in the same and in later flush segments and branches on them. '
+        ' Counted loops include steps that do not divide the range and empty ranges; add operands are passed both as register handles (RegFuture) and as registers. '
         "Non-trivial = direct evaluation executed at least one "
         "conditional body or loop iteration and >= 2 subroutines or >= 12 operations; distinct = distinct (program, script).")
 ASSUMPTIONS = [
